@@ -19,17 +19,20 @@ NEED = ['Modify', 'Link', 'Unlink', 'AddExplicit', 'Load', 'Savepoint', 'Rollbac
 
 
 def configs(q):
-    two = cd.consts(Obj=('a', 'b'), Edges='EdgesFlat', MaxSp=2, MaxCommit=1, MaxAct=4 if q else 5, MaxTail=1,
-                    Ops=('add', 'sp', 'load'))
-    chain = cd.consts(Obj=('a', 'b'), Edges='EdgesChain', MaxSp=2, MaxCommit=1, MaxAct=4 if q else 5, MaxTail=1, Ops=('sp',))
-    other = cd.consts(Obj=('a', 'b'), Edges='EdgesFlat', Pre=('a',), MaxSp=2 if not q else 1, MaxCommit=1, MaxOther=1, MaxAct=4, MaxTail=1,
-                      Ops=('sp', 'other', 'load') if q else ('sp', 'other', 'load', 'rm'))
-    blob = cd.consts(Obj=('a', 'k'), Blobs=('k',), Edges='EdgesBlob', MaxSp=2, MaxCommit=1, MaxAct=4 if q else 5, MaxTail=1,
-                     Ops=('add', 'sp', 'load', 'free'))
-    return [('two-savepoints', two), ('reachability', chain), ('conflict-at-commit', other), ('blobs', blob)]
+    two = cd.consts(Obj=('a', 'b'), Edges='EdgesFlat', MaxSp=2, MaxCommit=1, MaxAct=4 if q else 6, MaxTail=1,
+                    Ops=('add', 'sp') if q else ('add', 'sp', 'load'))
+    rep = cd.consts(Obj=('a',), Edges='EdgesFlat', MaxSp=2 if q else 3, MaxCommit=1 if q else 2, MaxAct=6 if q else 7, MaxTail=1,
+                    Ops=('add', 'sp', 'load') if q else ('add', 'sp', 'load', 'free'))
+    chain = cd.consts(Obj=('a', 'b'), Edges='EdgesChain', MaxSp=2, MaxCommit=1, MaxAct=4 if q else 6, MaxTail=1, Ops=('sp',))
+    other = cd.consts(Obj=('a',) if q else ('a', 'b'), Edges='EdgesFlat', Pre=('a',), MaxSp=2, MaxCommit=1, MaxOther=1,
+                      MaxAct=4, MaxTail=1, Ops=('sp', 'other', 'load'))
+    blob = cd.consts(Obj=('k',) if q else ('a', 'k'), Blobs=('k',), Edges='EdgesBlob', MaxSp=2, MaxCommit=1, MaxAct=6 if q else 5,
+                     MaxTail=1, Ops=('add', 'sp', 'load') if q else ('add', 'sp', 'load', 'free'))
+    return [('two-savepoints', two), ('repeated-rollback', rep), ('reachability', chain), ('conflict-at-commit', other),
+            ('blobs', blob)]
 
 
-BUDGET = {'two-savepoints': 150000, 'blobs': 120000, 'reachability': 120000, 'conflict-at-commit': 120000}
+BUDGET = {'two-savepoints': 110000}
 
 
 def run(ctx):
